@@ -10,6 +10,20 @@ TRUST = ("Trusted base: the Go type checker and go/ssa (x/tools v0.29.0) as a fa
 
 # id -> (technique, level text, level_note, design_ref)
 CLAIMED = {
+    "C11": (
+        "constant evaluation of the event mask against the fsnotify package's operation bits (constant GOOS branches pruned) + CFG edge-dominance for the name filter + must-pass-through ordering in the event loop + refresh-before-read in the query methods",
+        "Decides necessary structural conditions of self-convergence for all paths: the mask covers Create/Write/Remove/Rename on the analysed GOOS; names are filtered only for pure Write/Create events with the Spec extension table; "
+        "every accepted event reaches Lock, update, refresh, Unlock in that order; a removed tracked directory is reported; queries read the index after refreshIfRequired, which consults update in auto-refresh mode; "
+        "update retries untracked directories, marks successes, reports a change after a successful Add, and un-tracks removed directories. This is the thin, structural part of the property.",
+        TRUST + "Does NOT decide liveness, pacing, event coalescing/overflow, what fsnotify/inotify deliver for a given history, nor equality with a freshly built cache - these quantify over schedules and histories no static argument here can bound.",
+        "DESIGN.md §4 C11"),
+    "C20": (
+        "must-pass-through and who-may-call rules on configure/start/setup/stop, field-coverage (effects) of configure, select/receive forms of the watcher loop, decoded condition sets of the default-cache functions",
+        "Decides for all paths: one watcher at a time (NewWatcher only in setup, stop before setup/start, stop closes a non-nil watcher); one goroutine per start, started only from configure after setup under the auto-refresh flag and bound to the then-current watcher, this cache's mutex and refresh; "
+        "the goroutine returns on a closed channel and on a nil watcher; a nil watcher forces a rescan per query; configure applies all options first, then reassigns every field options cannot set (dirErrors directly, index and errors via refresh) and always ends with a refresh; NewCache and Configure both funnel into configure; "
+        "the default cache gets its options exactly once.",
+        TRUST + "fsnotify.Close closing both channels and releasing descriptors is assumed. Does not decide behavioural equivalence over option histories nor actual descriptor/goroutine counts.",
+        "DESIGN.md §4 C20"),
     "C10": (
         "must-pass-through ordering on the CFG + path-sensitive error-test tracking + source-like argument expressions + who-may-call inventory of file-system calls, per GOOS build configuration",
         "Decides the publication protocol for all paths: separator-free temp pattern with a non-Spec extension after the random part; temp file in the target's directory; rename within that directory to the target's base name; "
